@@ -60,7 +60,7 @@ def isSettlementTx (ms : List Msg) : Bool := !ms.isEmpty && ms.all (fun m => isS
 def isOracleTx (ms : List Msg) : Bool := !ms.isEmpty && ms.all (fun m => isOracleUrl m.url)
 
 /-- the account a message names as its signer (`GetSigners`), canonical; none when it does not decode -/
-def Msg.signer : Msg → Option String
+def Msg.signer : Msg → Option Acct
   | .op _ (.prevote f _ _ _) => decodeAcc f
   | .op _ (.vote f _ _ _ _) => decodeAcc f
   | .op _ (.consent v _) => (decodeVal v).map opAcc
@@ -115,7 +115,7 @@ def oraclePart (q f : Nat) : Nat := f * q / one18
 
 structure AState where
   s : State
-  grants : List (String × String × Str)     -- granter, grantee, type URL
+  grants : List (Acct × Acct × Str)         -- granter, grantee, type URL
   supply : Str → Nat
   prices : List (Str × Nat)
 
@@ -148,7 +148,7 @@ mutual
       match decodeAcc src, decodeAcc dst with
       | some x, some y =>
         if !validDenom d || amt ≤ 0 then none
-        else match a.s.bank.send x y d amt.toNat with
+        else match a.s.bank.send (.acct x) (.acct y) d amt.toNat with
           | some b => some { a with s := { a.s with bank := b } }
           | none => none
       | _, _ => none
@@ -164,7 +164,7 @@ mutual
       | some g => dispatch H g a ms
       | none => none
   /-- authz `DispatchActions`: each inner message runs when its signer is the grantee or has granted its type to the grantee -/
-  def dispatch (H : Str → Str) (grantee : String) (a : AState) : List Msg → Option AState
+  def dispatch (H : Str → Str) (grantee : Acct) (a : AState) : List Msg → Option AState
     | [] => some a
     | m :: rest =>
       match m.signer with
@@ -213,17 +213,17 @@ end
 
 structure Tx where
   msgs : List Msg
-  signers : List String          -- the accounts whose keys signed, in order (canonical names)
+  signers : List Acct            -- the accounts whose keys signed, in order
   payer : Option String
   fee : List (Str × Nat)
   gas : Nat
 
-def dedupS : List String → List String → List String
+def dedupS : List Acct → List Acct → List Acct
   | [], acc => acc.reverse
   | x :: r, acc => if acc.contains x then dedupS r acc else dedupS r (x :: acc)
 
 /-- the signers the transaction requires: its messages' signers in order without repetition, then an explicit fee payer -/
-def requiredSigners (tx : Tx) : Option (List String) :=
+def requiredSigners (tx : Tx) : Option (List Acct) :=
   if tx.msgs.any (fun m => m.signer.isNone) then none
   else
     let base := dedupS (tx.msgs.filterMap (·.signer)) []
@@ -233,7 +233,7 @@ def requiredSigners (tx : Tx) : Option (List String) :=
       | none => none
     | none => some base
 
-def feePayer (tx : Tx) : Option String :=
+def feePayer (tx : Tx) : Option Acct :=
   match tx.payer with
   | some p => decodeAcc p
   | none => match tx.msgs.head? with
@@ -241,7 +241,7 @@ def feePayer (tx : Tx) : Option String :=
     | none => none
 
 /-- `ValidateFeeder`: the validator exists and is bonded; the feeder is its operator or the delegate stored under that spelling -/
-def validateFeeder (s : State) (feeder : String) (validator : String) : Bool :=
+def validateFeeder (s : State) (feeder : Acct) (validator : String) : Bool :=
   match decodeVal validator with
   | none => false
   | some i => match getVal s.vals i with
@@ -276,9 +276,9 @@ def sigsOk (tx : Tx) : Bool := requiredSigners tx == some tx.signers
 /-- burn decorator: after a successful transaction min(collector balance, offered fee) of each offered denom is burned -/
 def burn (a : AState) (fee : List (Str × Nat)) : AState :=
   fee.foldl (fun acc f =>
-    let bal := acc.s.bank "collector" f.1
+    let bal := acc.s.bank .collector f.1
     let amt := min f.2 bal
-    { acc with s := { acc.s with bank := acc.s.bank.debit "collector" f.1 amt }, supply := fupd acc.supply f.1 (acc.supply f.1 - amt) }) a
+    { acc with s := { acc.s with bank := acc.s.bank.debit .collector f.1 amt }, supply := fupd acc.supply f.1 (acc.supply f.1 - amt) }) a
 
 /-- `DeliverTx` -/
 def deliverTx (H : Str → Str) (a : AState) (tx : Tx) : TxRes :=
@@ -293,9 +293,9 @@ def deliverTx (H : Str → Str) (a : AState) (tx : Tx) : TxRes :=
       else match requiredFee a.prices tx.fee (fixedGas tx.msgs), feePayer tx with
         | some (d, f), some p =>
           let q := a.s.st.params.oracleFee
-          match a.s.bank.send p "collector" d (collectorPart q f) with
+          match a.s.bank.send (.acct p) .collector d (collectorPart q f) with
           | none => none
-          | some b1 => match Bank.send b1 p "pool" d (oraclePart q f) with
+          | some b1 => match Bank.send b1 (.acct p) .pool d (oraclePart q f) with
             | none => none
             | some b2 =>
               let pd := if oraclePart q f > 0 && !a.s.poolDenoms.contains d then a.s.poolDenoms ++ [d] else a.s.poolDenoms
